@@ -18,7 +18,7 @@ def run(chk):
     chk.rule = ("op withfaces: 9 families in 3D (periodic or not, masks) through VoronoiIntegrator::with_faces: per cell (i) every vertex lies on its three dual planes and inside all half spaces; (ii) every vertex occurs in exactly three face lists; "
                 "(iii) every face list is a simple cycle (consecutive vertices share a second plane), planar, convex, counter-clockwise about the inward normal; (iv) polygon area = area integral, neighbour/shift accessors = face integrals in order; "
                 "(v) V-E+F = 2; (vi) face lists equal Model/Faces token by token; (vii) discard_faces().with_faces() reproduces everything bitwise; 1D/2D: with_faces is rejected (panic) for the cell and the integrator; "
-                "non-trivial = cell with >= 5 faces")
+                "non-trivial = cell with >= 5 faces; op bigcell: one cell with > 11 000 faces (generator inside a dense spherical shell): incidence, plane membership, cycle structure, Euler, accessors and polygon area = area integral evaluated on the implementation's output")
     chk.lean(['MVoro.Props.C15', 'MVoro.Proofs.FacesProofs', 'MVoro.Proofs.Euler'], [], [])
     got = run_cells_op(chk, op='withfaces')
     if got is None:
@@ -191,3 +191,46 @@ def run(chk):
                 if len(chk.samples) < 2 and len(faces) >= 8:
                     chk.sample({'op': 'withfaces', 'family': r.family, 'cell': idx, 'V': len(verts), 'F': len(faces), 'first_face': faces[0][3]})
     chk.extra_cov['records_with_panic_skipped_see_C05'] = npanic
+
+    # ---- one cell with more than ten thousand faces: the invariants evaluated by the harness on the implementation's output
+    binary, _ = cargo_build('ibig,rayon', False)
+    rec_f = os.path.join(chk.wdir(), 'bigcell.rec')
+    rc, fams, err = run_harness(binary, 'bigcell', chk.seed, chk.tier, rec_f)
+    if rc != 0:
+        chk.violation('harness', 'harness op bigcell failed: %s' % err[-300:], None)
+        return
+    for k, v in fams.items():
+        chk.families['bigcell_' + k] = v
+    big = []
+    for r in read_records(rec_f):
+        chk.count()
+        rp = {'op': 'bigcell', 'ids': [r.id], 'family': r.family, 'shell_generators': r.inp[0], 'record': r.line[:600],
+              'how': 'harness op bigcell: one generator at the centre of a Fibonacci-lattice shell of that many generators (radius 0.3, unit box), central cell with_faces()'}
+        if r.res[0] != 'BIG':
+            chk.violation('panic', 'with_faces on a cell with %s faces: %s' % (r.inp[0], ' '.join(r.res)[:300]), rp, key='with_faces bigcell')
+            continue
+        d = dict(zip(r.res[1::2], r.res[2::2]))
+        n = int(r.inp[0])
+        nf, nv = int(d['nf']), int(d['nv'])
+        bad = []
+        if nf != int(d['ai']):
+            bad.append('face_count %d != number of face integrals %s' % (nf, d['ai']))
+        if int(d['euler']) != 2:
+            bad.append('V - E + F = %s' % d['euler'])
+        for key, what in (('incidence_bad', 'vertices not in exactly three faces'), ('onplane_bad', 'face vertices whose dual triple does not contain the face plane'),
+                          ('cycle_bad', 'consecutive face vertices not sharing exactly one further plane'), ('range_bad', 'vertex indices out of range'),
+                          ('accessor_bad', 'neighbour/shift/plane accessors disagreeing with the clipping planes')):
+            if int(d[key]) != 0:
+                bad.append('%s %s' % (d[key], what))
+        dev, asum = hex_to_float(d['area_dev']), hex_to_float(d['area_sum'])
+        if not (dev <= 1e-9):
+            bad.append('polygon area differs from the area integral by %.3g' % dev)
+        if nf < n * 0.9:
+            bad.append('only %d faces for %d shell generators (generator broken?)' % (nf, n))
+        if bad:
+            chk.violation('impl-vs-oracle', 'cell with %d faces / %d vertices: %s' % (nf, nv, '; '.join(bad)), rp, key='bigcell')
+        else:
+            chk.traces += 1
+            chk.nontriv(('bigcell', r.id))
+            big.append({'faces': nf, 'vertices': nv, 'surface_area': asum})
+    chk.extra_cov['bigcell'] = big
